@@ -366,6 +366,76 @@ def rule_downcasts(rep, rid, idx, prefix, table):
                 rep.undecided(rid, key, 'dereferenced under a guard this rule cannot verify (%s; %s)' % (use, why), where + ' ' + f.qname)
 
 
+def rule_dangling_reference_members(rep, rid, idx, prefixes, floor=3):
+    rep.rule(rid, 'no reference member outlives what it is bound to: where a constructor stores a reference parameter in a reference member, '
+             'no named object is constructed with a temporary (a value returned by a function) in that position and used afterwards -- the '
+             'temporary dies at the end of the declaration and every later use reads freed memory', floor=floor)
+    cap = {}
+    for qn, rec in idx.records.items():
+        if not qn.startswith(tuple(prefixes)):
+            continue
+        for c in rec.ctors:
+            if c.node.get('isImplicit'):
+                continue
+            for ini in c.inits:
+                a = ini.get('anyInit') or {}
+                ft = (a.get('type') or {}).get('qualType', '')
+                if a.get('kind') != 'FieldDecl' or '&' not in ft or '&&' in ft or not children(ini):
+                    continue
+                e = strip(children(ini)[0])
+                while e.get('kind') in ('ImplicitCastExpr', 'ParenExpr') and children(e):
+                    e = strip(children(e)[0])
+                if e.get('kind') == 'DeclRefExpr' and (e.get('referencedDecl') or {}).get('kind') == 'ParmVarDecl':
+                    pid = e['referencedDecl'].get('id')
+                    for i, prm in enumerate(c.params):
+                        if prm.get('id') == pid and '&' in qt(prm):
+                            cap.setdefault((qn, c.type.strip()), []).append((i, a.get('name')))
+    if not cap:
+        raise AnalysisBroken('no constructor stores a reference parameter in a reference member (confirmed: the location visitors do)')
+    for f in idx.all_funcs():
+        if f.body is None or f.node.get('isImplicit') or not f.qname.startswith(tuple(prefixes)):
+            continue
+        parents = {}
+        order = []
+        for a in walk(f.body):
+            order.append(a)
+            for b in children(a):
+                parents[id(b)] = a
+        for n in order:
+            if n.get('kind') not in ('CXXConstructExpr', 'CXXTemporaryObjectExpr'):
+                continue
+            tn = re.sub(r'^(const )?(class |struct )?', '', qt(n)).strip()
+            cls = tn if tn in idx.records else idx._resolve_record_name(tn.split('::')[-1], f.cls or f.qname)
+            key = (cls, ((n.get('ctorType') or {}).get('qualType') or '').strip())
+            if key not in cap:
+                continue
+            args = [c for c in children(n)]
+            par = parents.get(id(n))
+            while par is not None and par.get('kind') in ('ExprWithCleanups', 'ImplicitCastExpr', 'CXXBindTemporaryExpr'):
+                par = parents.get(id(par))
+            named = par is not None and par.get('kind') == 'VarDecl'
+            for i, field in cap[key]:
+                if i >= len(args):
+                    continue
+                a = args[i]
+                while a.get('kind') in ('ImplicitCastExpr', 'ExprWithCleanups', 'CXXBindTemporaryExpr', 'ParenExpr') and children(a):
+                    a = children(a)[0]
+                temp = a.get('kind') == 'MaterializeTemporaryExpr'
+                used_later = False
+                if named and temp:
+                    seen = False
+                    for x in order:
+                        if x is par:
+                            seen = True
+                        elif seen and x.get('kind') == 'DeclRefExpr' and (x.get('referencedDecl') or {}).get('id') == par.get('id'):
+                            used_later = True
+                            break
+                bad = named and temp and used_later
+                rep.add(rid, '%s:%s.%s@%s' % (f.qname, cls.split('::')[-1], field, pos(n).split(':')[-1]), not bad, pos(n) + ' ' + f.qname,
+                        ('%s %s is constructed with a temporary for the reference member %s and used afterwards: the member dangles' %
+                         (cls, par.get('name'), field)) if bad else 'bound to an object that outlives the %s' % cls.split('::')[-1], nontrivial=False)
+
+
 def _vars_in(e):
     return {(x.get('referencedDecl') or {}).get('id') for x in walk(e)
             if x.get('kind') == 'DeclRefExpr' and (x.get('referencedDecl') or {}).get('kind') in ('VarDecl', 'ParmVarDecl', 'BindingDecl')}
